@@ -18,7 +18,10 @@ BOUNDS = ("product runs in one interpreter: out0 = asm(P,v); asm(Q1); asm(Q2); o
           "and translation phases); out0 == out1 asserted on integer observations (addresses, sizes, bytes, symbols, origin, "
           "name) for all values; the list of source lines is unchanged; module-level mutable state (INSTRUCTIONS, default "
           "argument instances of CodePackage / CoCoFile) is unchanged at the end of every path.  Enumerated, NOT decided by "
-          "the solver: fresh process vs warm process and 3 PYTHONHASHSEEDs on concrete members (listing, symbol table, image)")
+          "the solver: fresh process vs warm process and 3 PYTHONHASHSEEDs on concrete members (listing, symbol table, image); "
+          "listing/symbol-table/image STRINGS of P before and after 15 history programs (long labels, BOM, tabs, CRLF, 300 "
+          "statements ...), each history program's own list of lines unchanged, and a snapshot of every class attribute and "
+          "module global of cocoasm.* (mutable or not)")
 OUTSIDE = "more than two intervening programs; programs outside the three templates"
 ASSUMPTIONS = []
 
